@@ -122,10 +122,10 @@ func (h *hist) stressStep(c *client) {
 		h.downgrade(c, os.sid, fhLeaf(os.leaf), uint32(1+h.pick(3)), 0, 0, h.validVariant(os))
 	case x < 62:
 		os := opens[h.pick(len(opens))]
-		h.lock(c, lockParams{newOwner: true, openSid: os.sid, loKey: c.lockOwnerKey(h.pick(2)), fh: fhLeaf(os.leaf), rangeIdx: h.pick(len(lockRanges)), write: h.chance(50), variant: h.validVariant(os)})
+		h.lock(c, lockParams{newOwner: true, openSid: os.sid, loKey: c.lockOwnerKey(h.pick(2)), fh: fhLeaf(os.leaf), rangeIdx: h.pickRange(), write: h.chance(50), variant: h.validVariant(os)})
 	case x < 68 && len(locks) > 0:
 		ls := locks[h.pick(len(locks))]
-		h.unlock(c, ls.sid, fhLeaf(ls.os.leaf), h.pick(len(lockRanges)), 0, "valid")
+		h.unlock(c, ls.sid, fhLeaf(ls.os.leaf), h.pickRange(), 0, "valid")
 	case x < 74 && len(locks) > 0:
 		ls := locks[h.pick(len(locks))]
 		if c.ver == 0 {
